@@ -590,6 +590,8 @@ struct Args {
     selftest: bool,
     digest_only: bool,
     verif_dir: PathBuf,
+    /// where evidence/ and replays/ are written (default: verif_dir)
+    out_dir: Option<PathBuf>,
     no_respawn: bool,
 }
 
@@ -607,6 +609,7 @@ fn parse_args() -> Result<Args, String> {
         selftest: false,
         digest_only: false,
         verif_dir: PathBuf::from(std::env::var("VERIF_DIR").unwrap_or_else(|_| "/verif".into())),
+        out_dir: std::env::var("VERIF_OUT_DIR").ok().filter(|s| !s.is_empty()).map(PathBuf::from),
         no_respawn: false,
     };
     let mut it = std::env::args().skip(1);
@@ -621,6 +624,7 @@ fn parse_args() -> Result<Args, String> {
             "--workers" => a.workers = val("--workers")?.parse().map_err(|e| format!("--workers: {e}"))?,
             "--replay" => a.replay = Some(PathBuf::from(val("--replay")?)),
             "--verif-dir" => a.verif_dir = PathBuf::from(val("--verif-dir")?),
+            "--out-dir" => a.out_dir = Some(PathBuf::from(val("--out-dir")?)),
             "selftest" | "--selftest" => a.selftest = true,
             "--digest-only" => a.digest_only = true,
             "--no-respawn" => a.no_respawn = true,
@@ -778,6 +782,7 @@ fn main() {
         std::process::exit(selftest(&a, &known));
     }
 
+    let out_dir = a.out_dir.clone().unwrap_or_else(|| a.verif_dir.clone());
     let (def_runs, def_seeds) = if a.tier == "quick" { (400_000u64, 1u64) } else { (2_000_000u64, 64u64) };
     let runs = a.runs.unwrap_or(def_runs);
     let nseeds = a.seeds.unwrap_or(def_seeds);
@@ -808,7 +813,7 @@ fn main() {
         exit = 2;
     }
     if let Some((base, idx, fails)) = failing {
-        let replay_dir = a.verif_dir.join("replays");
+        let replay_dir = out_dir.join("replays");
         let _ = std::fs::create_dir_all(&replay_dir);
         for (leg, case, viols) in fails {
             let mut seen = BTreeSet::new();
@@ -865,7 +870,7 @@ fn main() {
             }
         }
     }
-    let ev_path = a.verif_dir.join("evidence").join(format!("{PROPERTY}.json"));
+    let ev_path = out_dir.join("evidence").join(format!("{PROPERTY}.json"));
     if let Err(e) = write_evidence(&ev_path, &a.tier, a.seed, &seeds, runs, a.workers, &total, wall, nviol, &known) {
         eprintln!("HARNESS ERROR: cannot write evidence: {e}");
         std::process::exit(2);
